@@ -218,7 +218,7 @@ def run():
     if core.SEED:   # seed only permutes the shard order
         import random
         random.Random(core.SEED).shuffle(order)
-    parts = core.pmap(work, [its[i] for i in order], ordered=True)
+    parts = scripts.pmap(work, [its[i] for i in order])
     found = {}
     for p in parts:
         for g, v in p.extra.pop("found").items():
